@@ -50,7 +50,7 @@ HISTORY = {
     "C02c": ("strengthened", "missed (needs an input that does not require grad next to a differentiable E); added requires-grad patterns B_constant / A_constant / E_constant / AB_constant"),
     "C03c": ("NOT CAUGHT", "needs a user function that returns NaN outside its domain; the engine works over exact reals (NaN only as a constant), an uninterpreted function cannot return NaN: outside the technique's reach as built"),
     "C04c": ("strengthened", "the solver found the counterexample at once (cotangent entries <= 1e-8 in magnitude), but the float64 replay compared with an absolute floor and did not confirm it (reported as harness error, exit 2); the replay now takes a second, purely relative look"),
-    "C05c": ("NOT CAUGHT", "davidson (with v_init='eye' and M) is outside the bound of the C05 check"),
+    "C05c": ("strengthened", "not reported in round 3 (davidson was outside the bound); reported since round 4 by the bounded davidson scenario (2x2, v_init='eye', with M: M-normalisation and the residual of the returned pair)"),
     "C06c": ("NOT CAUGHT", "needs second-order differentiation w.r.t. a non-linearly parametrised matrix-free M; second order with M is outside the bound stated for C06"),
     "C07c": ("strengthened", "missed (needs a float32 solve before a float64 one: class-level tableau state); added tableau_state"),
     "C09c": ("strengthened", "missed by the four functionals checked so far (needs a functional that wraps the method in a sibling of its own); added equilibrium / quad_tuple / hess over the aliased-tensor representations"),
